@@ -38,3 +38,11 @@ package maypanic
 //@   ensures last: goFunctions[f][len(goFunctions[f]) - 1] == pos
 //@   ensures others: forall g *ssa.Function :: g != f ==> (has(goFunctions, g) <==> old(has(goFunctions, g))) && goFunctions[g] == old(goFunctions[g])
 //@   modifies map(*ssa.Function;[]token.Pos), elems(token.Pos)
+
+// allowListed(path): path IS an allow-listed package or lies BELOW one (next
+// path element), never merely shares a string prefix with one ("go" vs "gopherworks").
+//@ func allowListed
+//@   property C19
+//@   ensures exact: result <==> (exists i int :: 0 <= i && i < len(allowList) && (allowList[i] == path || strings.HasPrefix(path, allowList[i] + "/")))
+//@   loop p invariant none_so_far: forall j int :: 0 <= j && j < iter(p) ==> !(allowList[j] == path || strings.HasPrefix(path, allowList[j] + "/"))
+//@   modifies nothing
